@@ -216,12 +216,14 @@ META = {
     'technique': 'static analysis: symbolic value analysis of the block writer against a reference definition per bit depth/mode '
                  '(buffer-store indices and values, loop bodies, trip counts), affine byte-index agreement writer<->decoder with '
                  'residue coverage, window/spectra accounting identities, reset dominance on the event trace',
-    'level': 'Decides from the source that the writer places re/im (8 bit) or the packed nibble byte 16*Re + (Im mod 16) (4 bit) at '
-             'the channel-major, time, polarisation, component offsets the decoder reads (offsets/strides equal as terms, every '
-             'byte covered once for 1 and 2 polarisations), that blocks are serialised as int8 bytes of the collected array, that '
-             'each sub-block requests W (first) or W-1 (later) windows and therefore yields (W-1)*num_taps spectra matching the '
-             'bytes written, and that all caches are reset before the first block. Byte-exact partition invariance (tiling of the '
-             'block by sub-blocks for all num_subblocks) is not decided.',
+    'level': 'Decides from the source that the writer places re/im (8 bit) or the packed nibble byte 16*Re + (Im mod 16) (4 '
+             'bit) at the channel-major, time, polarisation, component offsets the decoder reads (offsets/strides equal as '
+             'terms, every byte covered once for 1 and 2 polarisations), that blocks are serialised as int8 bytes of the '
+             'collected array, that each sub-block request is a whole number W of windows at the start of an observation and '
+             'W-1 afterwards (stated on the request length, whatever locals compute it) and therefore yields (W-1)*num_taps '
+             'spectra matching the bytes written, that every stream request binds a fresh voltage buffer (the array source '
+             'keeps views of the previous one), and that all caches are reset before the first block. Byte-exact partition '
+             'invariance (tiling of the block by sub-blocks for all num_subblocks) is not decided.',
     'note': 'Real/integer arithmetic; the PFB row count floor(len/(T*B))-1 windows is taken from the front-end definition checked '
             'under C08; duck-typed quantize/channelize calls are opaque.',
 }
